@@ -249,6 +249,46 @@ class ClientHarness:
         if self.aio:
             self.loop.run_until_idle()
 
+    def deliver_then_end(self, frames, how='close'):
+        """MESSAGE packets followed, within the same read, by the end of the
+        connection (a CLOSE packet, or a transport error): engine.io hands the
+        messages to background tasks / threads and processes the end itself,
+        so the end can be processed first."""
+        eio = self.eio
+        if eio.state != 'connected':
+            return False
+        P = self.eio_packet
+
+        if self.aio:
+            async def payload():
+                for f in frames:
+                    await eio._receive_packet(P.Packet(P.MESSAGE, f))
+                if how == 'close':
+                    await eio._receive_packet(P.Packet(P.CLOSE))
+                else:
+                    await eio._trigger_event('disconnect',
+                                             self.reason.TRANSPORT_ERROR,
+                                             run_async=False)
+                    await eio._reset()
+            self.do(payload())
+            self.loop.run_until_idle()
+        else:
+            mode, self.bg_mode = self.bg_mode, 'queued'
+            try:
+                for f in frames:
+                    eio._receive_packet(P.Packet(P.MESSAGE, f))
+                if how == 'close':
+                    eio._receive_packet(P.Packet(P.CLOSE))
+                else:
+                    eio._trigger_event('disconnect',
+                                       self.reason.TRANSPORT_ERROR,
+                                       run_async=False)
+                    eio._reset()
+            finally:
+                self.bg_mode = mode
+            self.settle()
+        return True
+
     def take_outbox(self):
         out, self.outbox = self.outbox, []
         return out
